@@ -191,6 +191,13 @@ struct World {
     peer_seed: u64,
     /// `RemoveFailedLocalRecord` handled in a row (the handler terminates the node after 5)
     removes_in_a_row: u32,
+    /// small command channel: the harness does not take notifications off the channel while tasks run (`run`),
+    /// only before the other operations; a notification that finds the channel full waits in its sender task
+    defer: bool,
+    /// lanes whose sender task is waiting for room on the channel (as of the last `run`)
+    blocked_senders: usize,
+    /// write tasks that ran and whose notification has not been received yet, in run order: (task id, key)
+    awaiting: VecDeque<(u64, u64)>,
     cmd_tx: mpsc::Sender<LocalSwarmCmd>,
     cmd_rx: mpsc::Receiver<LocalSwarmCmd>,
     ev_tx: mpsc::Sender<NetworkEvent>,
@@ -252,7 +259,7 @@ fn big_to_u256(b: &BigUint) -> U256 {
 }
 
 impl World {
-    fn new(max: usize, cache: usize, peer_seed: u64, maxval: usize, use_cmd: bool) -> World {
+    fn new(max: usize, cache: usize, peer_seed: u64, maxval: usize, use_cmd: bool, chan: Option<usize>) -> World {
         let root = scratch_dir("store-");
         let storage = root.path().join("record_store");
         std::fs::create_dir_all(&storage).expect("mkdir");
@@ -262,7 +269,7 @@ impl World {
         let peer_hash = sha(&[&peer.to_bytes()]);
         let mut seed16 = [0u8; 16];
         seed16.copy_from_slice(&sha(&[b"seed", &peer_seed.to_le_bytes()])[..16]);
-        let (cmd_tx, cmd_rx) = mpsc::channel(100_000);
+        let (cmd_tx, cmd_rx) = mpsc::channel(chan.unwrap_or(100_000));
         let (ev_tx, _ev_rx) = mpsc::channel(16);
         let mut w = World {
             root,
@@ -282,6 +289,9 @@ impl World {
             use_cmd,
             peer_seed,
             removes_in_a_row: 0,
+            defer: chan.is_some(),
+            blocked_senders: 0,
+            awaiting: VecDeque::new(),
             cmd_tx,
             cmd_rx,
             ev_tx,
@@ -557,9 +567,10 @@ impl World {
     fn inflight(&self, k: u64) -> bool {
         self.pending_tasks().iter().any(|(_, t)| matches!(t, TKind::Write { k: kk, .. } if *kk == k))
             || self.notes.iter().any(|(_, kk, _)| *kk == k)
+            || self.awaiting.iter().any(|(_, kk)| *kk == k)
     }
     fn any_inflight(&self) -> bool {
-        self.pending_tasks().iter().any(|(_, t)| matches!(t, TKind::Write { .. })) || !self.notes.is_empty()
+        self.pending_tasks().iter().any(|(_, t)| matches!(t, TKind::Write { .. })) || !self.notes.is_empty() || !self.awaiting.is_empty()
     }
     fn pending_for(&self, k: u64) -> bool {
         self.pending_tasks().iter().any(|(_, t)| t.key() == Some(k))
@@ -581,8 +592,10 @@ impl World {
             guard += 1;
         }
         let mut cmds = vec![];
-        while let Ok(c) = self.cmd_rx.try_recv() {
-            cmds.push(c);
+        if !self.defer {
+            while let Ok(c) = self.cmd_rx.try_recv() {
+                cmds.push(c);
+            }
         }
         if let Some(d) = self.driver.as_mut() {
             // the driver's own `LocalSwarmCmd` receiver: what `SwarmDriver::run` would take next
@@ -590,10 +603,49 @@ impl World {
                 cmds.push(c);
             }
         }
-        if self.lanes[li].tasks.is_empty() {
+        if self.lanes[li].tasks.is_empty() && self.lanes[li].rt.metrics().num_alive_tasks() == 0 {
             self.lanes.remove(li);
         }
         cmds
+    }
+
+    /// small-channel histories: take what is on the command channel, let waiting sender tasks proceed (oldest
+    /// first — tokio grants channel permits in waiting order), repeat until nothing moves
+    fn pump(&mut self) {
+        if !self.defer {
+            return;
+        }
+        loop {
+            let mut progress = false;
+            while let Ok(c) = self.cmd_rx.try_recv() {
+                progress = true;
+                let key = match &c {
+                    LocalSwarmCmd::AddLocalRecordAsStored { key, .. } | LocalSwarmCmd::RemoveFailedLocalRecord { key } => Some(key.clone()),
+                    _ => None,
+                };
+                let k = key.and_then(|key| self.key_ids.get(key.as_ref()).copied()).unwrap_or(u64::MAX);
+                // per-key FIFO: the notification belongs to the oldest write of that key still waiting for one
+                let id = match self.awaiting.iter().position(|(_, kk)| *kk == k) {
+                    Some(p) => self.awaiting.remove(p).expect("pos").0,
+                    None => u64::MAX - self.notes.len() as u64,
+                };
+                self.notes.push((id, k, c));
+            }
+            for lane in self.lanes.iter_mut() {
+                let before = lane.rt.metrics().num_alive_tasks();
+                if before > lane.tasks.len() {
+                    lane.rt.block_on(tokio::task::yield_now());
+                    if lane.rt.metrics().num_alive_tasks() < before {
+                        progress = true;
+                    }
+                }
+            }
+            self.lanes.retain(|l| !l.tasks.is_empty() || l.frozen || l.rt.metrics().num_alive_tasks() > 0);
+            if !progress {
+                break;
+            }
+        }
+        self.blocked_senders = self.lanes.iter().filter(|l| l.rt.metrics().num_alive_tasks() > l.tasks.len()).count();
     }
 
     fn fail(&mut self, clause: &str, what: String) {
@@ -632,7 +684,7 @@ impl World {
 
     /// C01: with nothing in flight, every untainted key reads back its last accepted put / is absent after removal
     fn check_settled(&mut self) {
-        if self.crashed || self.lanes.iter().any(|l| !l.frozen) || !self.notes.is_empty() || self.keys.len() > 64 {
+        if self.crashed || self.lanes.iter().any(|l| !l.frozen) || !self.notes.is_empty() || !self.awaiting.is_empty() || self.keys.len() > 64 {
             return;
         }
         let listed = self.listed();
@@ -666,6 +718,9 @@ impl World {
 
     fn exec(&mut self, line: &str) -> String {
         let ws: Vec<&str> = line.split_whitespace().collect();
+        if self.defer && !matches!(ws.first().copied(), Some("run" | "put" | "cput" | "key" | "len" | "kadput")) {
+            self.pump();
+        }
         let knows = |w: &World, k: &str| -> Option<u64> { k.parse::<u64>().ok().filter(|k| w.keys.contains_key(k)) };
         match ws.as_slice() {
             ["key", k, d] => {
@@ -810,8 +865,21 @@ impl World {
                 if pos != 0 || self.lanes[li].frozen {
                     return "unsupported-schedule".into();
                 }
+                let queued_before = self.cmd_tx.max_capacity() - self.cmd_tx.capacity();
                 let cmds = self.step_lane(li);
                 let mut out = "ran".to_string();
+                if self.defer {
+                    // the notification is either on the channel now or waits (in its sender task) for room
+                    let queued = self.cmd_tx.max_capacity() - self.cmd_tx.capacity();
+                    let blocked_now = self.lanes.iter().filter(|l| l.rt.metrics().num_alive_tasks() > l.tasks.len()).count();
+                    if let TKind::Write { k, .. } = kind {
+                        if queued > queued_before || blocked_now > self.blocked_senders {
+                            out.push_str(" add");
+                            self.awaiting.push_back((id, k));
+                        }
+                    }
+                    self.blocked_senders = blocked_now;
+                }
                 for c in cmds {
                     match &c {
                         LocalSwarmCmd::AddLocalRecordAsStored { key, .. } => {
@@ -1155,6 +1223,8 @@ impl World {
         // the node stops: nothing pending survives
         self.lanes.clear();
         self.notes.clear();
+        self.awaiting.clear();
+        self.blocked_senders = 0;
         self.close();
         while self.cmd_rx.try_recv().is_ok() {}
         self.crashed = true;
@@ -1369,6 +1439,9 @@ fn gen_op(rng: &mut Rng, w: &World, g: &Gen) -> String {
             return format!("deliver {id}");
         }
     }
+    if w.defer && runnable.len() >= 2 && rng.chance(1, 2) {
+        return format!("run {}", rng.pick(&runnable));
+    }
     let roll = rng.below(100);
     let (p_put, p_remove, p_run, p_deliver) = match g.mode {
         Mode::Sched => (28, 8, 24, 18),
@@ -1484,7 +1557,7 @@ impl Runner {
     fn line(&mut self, line: &str) -> String {
         let ws: Vec<&str> = line.split_whitespace().collect();
         let (rec, res) = match ws.as_slice() {
-            [init @ ("init" | "initcmd"), m, c, p, rest @ ..] if rest.len() <= 1 && !(*init == "initcmd" && !rest.is_empty()) => match (
+            [init @ ("init" | "initcmd"), m, c, p, rest @ ..] if rest.len() <= 2 && !(*init == "initcmd" && !rest.is_empty()) && rest.get(1).map(|x| x.parse::<usize>().map(|n| n >= 1).unwrap_or(false)).unwrap_or(true) => match (
                 m.parse::<usize>(),
                 c.parse::<usize>(),
                 p.parse::<u64>(),
@@ -1493,7 +1566,7 @@ impl Runner {
                 (Ok(m), Ok(c), Ok(p), Ok(mv)) if c >= 1 => {
                     self.flush_fails();
                     self.w = None;
-                    let mut w = World::new(m, c, p, mv, *init == "initcmd");
+                    let mut w = World::new(m, c, p, mv, *init == "initcmd", rest.get(1).and_then(|x| x.parse::<usize>().ok()));
                     w.hist.push(line.to_string());
                     self.w = Some(w);
                     self.n_hist += 1;
@@ -1580,10 +1653,19 @@ impl Runner {
 
     /// run everything pending in a random legal order, then observe the whole state
     fn settle_and_observe(&mut self, rng: &mut Rng, observe_extra: bool) -> Vec<String> {
+        let mut guard = 0;
         loop {
             let r = self.world().runnable();
             let d = self.world().deliverable();
             if r.is_empty() && d.is_empty() {
+                if !self.world().awaiting.is_empty() && guard < 50 {
+                    // notifications still on the channel / waiting for room: the next non-run op takes them off
+                    guard += 1;
+                    self.line("pending");
+                    if !self.world().deliverable().is_empty() {
+                        continue;
+                    }
+                }
                 break;
             }
             let n = (r.len() + d.len()) as u64;
@@ -1638,6 +1720,12 @@ fn main() {
         return;
     }
     let mut rng = Rng::new(args.seed ^ (mode as u64).wrapping_mul(0x51ED));
+    if mode == Mode::Sched || mode == Mode::Cap {
+        channel_backlog_corpus(&mut r);
+    }
+    if mode == Mode::Crash {
+        header_like_ciphertext_corpus(&mut r);
+    }
     if mode == Mode::Cmd {
         key_length_corpus(&mut r, true);
         notification_bursts(&mut r, &mut rng);
@@ -1661,6 +1749,9 @@ fn main() {
         };
         let peer = rng.below(1000);
         let small_maxval = if mode != Mode::Cap && mode != Mode::Cmd && rng.chance(1, 3) { Some(rng.range(64, 400)) } else { None };
+        // a quarter of the sched / cap histories: a command channel of capacity 1-4 that the harness does not drain
+        // while tasks complete
+        let small_chan = if (mode == Mode::Sched || mode == Mode::Cap) && rng.chance(1, 4) { Some(rng.range(1, 4)) } else { None };
         let g = Gen { mode, nkeys, key_base, disciplined: mode == Mode::Cap && rng.chance(1, 3) };
         key_base = (key_base + nkeys) % 3000;
         let nops = rng.range(5, 60);
@@ -1670,6 +1761,7 @@ fn main() {
         for sch in 0..schedules {
             match small_maxval {
                 _ if mode == Mode::Cmd => r.line(&format!("initcmd {max} {cache} {peer}")),
+                mv if small_chan.is_some() => r.line(&format!("init {max} {cache} {peer} {} {}", mv.unwrap_or(ant_networking::MAX_PACKET_SIZE as u64), small_chan.expect("chan"))),
                 Some(mv) => r.line(&format!("init {max} {cache} {peer} {mv}")),
                 None => r.line(&format!("init {max} {cache} {peer}")),
             };
@@ -1796,6 +1888,103 @@ fn size_limit_corpus(r: &mut Runner) {
     r.line("crash");
     r.observe(true);
     r.out.nontrivial_case("size-limit-corpus-all");
+}
+
+/// What the store writes into the record file of `key` for `value` under encryption seed `seed`, computed here with
+/// the aes-gcm-siv / hkdf crates (HKDF-SHA256, salt "autonomi_record_store"; nonce = 4 seed bytes + first 8 key bytes).
+fn independent_ciphertext(seed: &[u8; 16], key: &[u8], value: &[u8]) -> Vec<u8> {
+    use aes_gcm_siv::aead::{Aead, KeyInit};
+    let hk = hkdf::Hkdf::<Sha256>::new(Some(b"autonomi_record_store"), seed);
+    let mut okm = [0u8; 32];
+    hk.expand(b"", &mut okm).expect("hkdf");
+    let cipher = aes_gcm_siv::Aes256GcmSiv::new_from_slice(&okm).expect("key");
+    let mut nonce = seed[..4].to_vec();
+    nonce.extend_from_slice(key);
+    nonce.resize(12, 0);
+    cipher.encrypt(aes_gcm_siv::Nonce::from_slice(&nonce), value).expect("encrypt")
+}
+
+/// Corpus (C02): records whose ENCRYPTED file happens to begin with bytes the record-header parser accepts (about one
+/// in 8000; found by a deterministic search with the harness's own encryption). Their files are torn at prefix lengths
+/// from 3 bytes on and the node restarted: a torn file must never be indexed or served, whatever its first bytes look like.
+fn header_like_ciphertext_corpus(r: &mut Runner) {
+    if !rs::ENCRYPT_RECORDS {
+        return;
+    }
+    let peer = 77u64;
+    let mut seed16 = [0u8; 16];
+    seed16.copy_from_slice(&sha(&[b"seed", &peer.to_le_bytes()])[..16]);
+    let mut hits: Vec<(u64, u64, u8)> = vec![];
+    let values: Vec<u64> = (0..300u64).step_by(3).chain((12..112u64).map(|len| 1000 + 3 * len + 2)).collect();
+    'search: for k in 0..2000u64 {
+        let key = key_bytes(k);
+        for v in &values {
+            let ct = independent_ciphertext(&seed16, &key, &value_bytes(*v));
+            if ct.len() > 3 && ant_protocol::storage::RecordHeader::try_deserialize(&ct[..3]).is_ok() && !hits.iter().any(|h| h.0 / 3 == k / 3) {
+                hits.push((k, *v, ct[0]));
+                if hits.len() >= 3 {
+                    break 'search;
+                }
+            }
+        }
+    }
+    r.out.count_n("header-like-ciphertexts-found", hits.len() as u64);
+    for (k, v, _) in hits {
+        r.line(&format!("init 8 2 {peer}"));
+        r.line(&format!("key {k} @"));
+        let len = file_len(v);
+        {
+            // the search is only as good as the harness's own encryption: compare once with a file the store wrote
+            let id = r.world().next_id;
+            r.line(&format!("put {k} {v} c"));
+            r.line(&format!("run {id}"));
+            let w = r.world();
+            let on_disk = std::fs::read(w.storage.join(rs::generate_filename(&w.keys[&k].0))).unwrap_or_default();
+            if on_disk != independent_ciphertext(&w.seed16, &key_bytes(k), &value_bytes(v)) {
+                r.out.notes.push(format!("the harness's own encryption of value {v} under key {k} differs from the file the store wrote: the header-like-ciphertext search is blind"));
+                r.out.count("independent-ciphertext-mismatch");
+            }
+            r.line("crash");
+        }
+        for n in [3usize, 4, 5, 16, 17, len - 1] {
+            let id = r.world().next_id;
+            r.line(&format!("put {k} {v} c"));
+            r.line(&format!("crash {id}:{n}"));
+            r.line(&format!("get {k}"));
+            r.line("addrs");
+            r.line("ls");
+        }
+        r.out.nontrivial_case(&format!("header-like-ciphertext-{k}-{v}"));
+    }
+}
+
+/// Corpus (C01/C10): a backlog on the local command channel. The channel has room for 2 commands; six writes
+/// complete before the harness takes anything off it, so four notifications have to wait for room. None may get
+/// lost: after draining and handling them every accepted write is listed, readable and counted.
+fn channel_backlog_corpus(r: &mut Runner) {
+    for chan in [2u64, 1] {
+        r.line(&format!("init 8 2 12 {} {chan}", ant_networking::MAX_PACKET_SIZE));
+        for k in 30..36u64 {
+            r.line(&format!("key {k} @"));
+        }
+        let mut ids = vec![];
+        for k in 30..36u64 {
+            ids.push(r.world().next_id);
+            r.line(&format!("put {k} {} c", 90 + 3 * k));
+        }
+        for id in &ids {
+            r.line(&format!("run {id}"));
+        }
+        r.line("pending");
+        for id in &ids {
+            r.line(&format!("deliver {id}"));
+        }
+        r.observe(true);
+        for k in 30..36u64 {
+            r.line(&format!("contains {k}"));
+        }
+        r.out.nontrivial_case(&format!("channel-backlog-{chan}"));
+    }
 }
 
 /// Corpus (C01/C02): record keys are arbitrary byte strings — 8-byte, 32-byte and 34-byte (PeerId-like) keys are
